@@ -437,7 +437,7 @@ def olc_wrappers():
 
 
 def olc_queries(pid, tier_all=None):
-    u = U('olc_conc.cpp', 'nostats', max_node_type=2, yield_in='unodb::', extra_glue=[olc_wrappers()], extern_c=['verif_fixed_k'])
+    u = U('olc_conc.cpp', 'nostats', max_node_type=2, yield_in='unodb::', extra_glue=[olc_wrappers()], extern_c=['verif_fixed_k'], cdefs=['IR2C_SPIN_BLOCKS'])
     qs = []
     import fw
     known, _fixed = fw.load_known()
@@ -456,7 +456,7 @@ OLC_ASSUME = ['own sequentialisation: two simulated threads in one sequential pr
               'the preemption index is enumerated exhaustively (one CBMC run per index; every run is fully decided by CBMC symbolic execution with pointer/deallocation checks; the SAT instances are trivial). '
               'A symbolic preemption index was measured out of reach: path-wise > 1200 s per scenario, merged: symbolic execution does not finish in 900 s',
               'scenario list: concrete trees and keys, one per structural change (collapse onto inner node / onto leaf, growth, shrink, leaf split, root replacement, prefix split) x {reader, second writer, same-key race}',
-              'a spinning thread cannot occur: the preempting operation always runs to completion']
+              'if the preempting operation would have to wait for a lock held by the preempted thread, the schedule "B completes at this point" does not exist; the run ends there (B waits until A resumes = a later preemption point or B after A, which are explored)']
 
 
 def c03():
